@@ -125,3 +125,64 @@ func (s fnSig) hasRef() bool {
 	}
 	return false
 }
+
+// pairs: EVERY (context, inner expression) pair from two catalogues that between them contain every node type, every
+// built-in function and the usual literal / slice / projection / filter shapes, on a small set of documents chosen for
+// their shapes (null members, missing keys, arrays mixing objects with scalars and nulls, empty containers, nested
+// arrays, strings that look like numbers or JSON).  Two-feature interactions — a function after a dot on a null left
+// side, a filter whose elements are not objects, a projection feeding a pipe into another projection, a slice inside a
+// slice, a literal on one side of a comparison with a field on the other — are all members of this product, so they
+// are covered by construction rather than by the luck of a random draw.  Objects that are iterated (`*`, keys, values)
+// have one member, so no result depends on Go's map order.
+var pairInner = []string{
+	"@", "a", "b", "n", "s", "arr", "nums", "mix", "obj", "one", "empty", "missing", "nul", "a.b", "obj.k", "one.k", "missing.x", "nul.x", "arr[0]", "arr[-1]", "arr[5]", "nums[1]", "mix[2]",
+	"arr[0].a", "arr[1:]", "nums[::-1]", "nums[:2]", "mix[1::2]", "empty[0:1]", "s[0:1]", "arr[*]", "arr[*].a", "mix[*].a", "nums[*]", "arr[]", "nest[]", "nest[][]", "mix[]", "arr[?a]", "arr[?a == `1`]",
+	"mix[?a]", "mix[?@]", "mix[?a == `null`]", "nums[?@ > `1`]", "mix[?type(@) == 'object'].a", "one.*", "one.*.k", "[a, b]", "[a, missing]", "[@]", "{x: a, y: missing}", "{x: @}", "a || b",
+	"missing || a", "nul || `0`", "a && b", "missing && a", "empty && a", "!a", "!missing", "!empty", "a == b", "a == a", "a != nul", "missing == nul", "n < `2`", "n >= n", "s < `1`", "missing < `1`",
+	"a | @", "arr | [0]", "missing | type(@)", "`1`", "`null`", "`[1,2]`", "`{\"k\":1}`", "`\"x\"`", "'raw'", "''", "`[]`", "`{}`", "`false`", "`0`", "(a)", "(arr)[0]", "(arr[*].a)[0]",
+	"abs(n)", "abs(nums[0])", "avg(nums)", "avg(empty)", "ceil(n)", "floor(n)", "contains(s, 'a')", "contains(nums, `1`)", "contains(mix, `null`)", "ends_with(s, 'c')", "starts_with(s, 'a')", "join('-', strs)",
+	"keys(one)", "values(one)", "length(s)", "length(arr)", "length(obj)", "map(&a, arr)", "map(&a, mix)", "map(&@, empty)", "max(nums)", "min(nums)", "max(strs)", "max(empty)", "max_by(arr, &a)",
+	"min_by(arr, &a)", "max_by(empty, &a)", "merge(obj, one)", "merge(obj)", "not_null(missing, a)", "not_null(nul, missing)", "not_null(a)", "reverse(nums)", "reverse(s)", "sort(nums)", "sort(strs)",
+	"sort_by(arr, &a)", "sort_by(empty, &a)", "sum(nums)", "sum(empty)", "to_array(a)", "to_array(arr)", "to_array(nul)", "to_number(s)", "to_number(num_s)", "to_number(n)", "to_number(nul)",
+	"to_string(a)", "to_string(s)", "to_string(obj)", "to_string(nul)", "type(a)", "type(missing)", "type(arr)", "type(obj)", "type(s)", "type(nul)",
+}
+
+var pairOuter = []string{
+	"%s", "(%s)", "%s.a", "%s.k", "%s.b.c", "%s[0]", "%s[-1]", "%s[1:]", "%s[::-1]", "%s[:1]", "%s[*]", "%s[*].a", "%s[]", "%s[][]", "%s[?a]", "%s[?@]", "%s[?@ == `null`]", "%s[?a == `1`]", "%s[?type(@) == 'number']",
+	"%s | @", "%s | [0]", "%s | type(@)", "%s | length(@)", "%s | [*].a", "%s | [*].type(@)", "%s | [?@]", "@ | %s", "a | %s", "missing | %s", "arr | %s", "arr[0] | %s", "mix | %s",
+	"%s || a", "%s || 'd'", "%s && a", "a || %s", "missing || %s", "a && %s", "missing && %s", "!%s", "!(%s)", "%s == a", "%s == `null`", "%s != `[]`", "a == %s", "`1` == %s", "%s < `2`", "%s >= n", "n < %s", "n > (%s)",
+	"[%s]", "[%s, a]", "[a, %s, %s]", "{x: %s}", "{x: a, y: %s}", "arr[*].[%s]", "arr[*].{v: %s}", "arr[?%s]", "mix[?%s]", "arr[?a == (%s)]", "arr[*].(%s)", "mix[*].(%s)", "nest[].(%s)", "one.*.(%s)", "arr[1:].(%s)",
+	"missing.%s", "nul.%s", "a.%s", "arr[0].%s", "arr[5].%s", "obj.%s", "mix[0].%s", "[%s][0]", "[%s][*]", "{x: %s}.x", "(%s)[0]", "(%s).a",
+	"abs(%s)", "avg(%s)", "ceil(%s)", "contains(%s, a)", "contains(arr, %s)", "contains(s, %s)", "ends_with(%s, 'c')", "floor(%s)", "join(',', %s)", "join(%s, strs)", "keys(%s)", "length(%s)", "map(&%s, arr)",
+	"map(&%s, mix)", "map(&a, %s)", "map(&type(@), %s)", "max(%s)", "max_by(%s, &a)", "max_by(arr, &%s)", "merge(%s)", "merge(obj, %s)", "min(%s)", "min_by(%s, &a)", "not_null(%s)", "not_null(%s, a)", "not_null(missing, %s)",
+	"reverse(%s)", "sort(%s)", "sort_by(%s, &a)", "sort_by(arr, &%s)", "starts_with(%s, 'a')", "sum(%s)", "to_array(%s)", "to_number(%s)", "to_string(%s)", "type(%s)", "values(%s)",
+	"to_array(%s)[0]", "sort_by(%s, &a)[0]", "length(to_array(%s))", "type(%s) == 'null'", "[type(%s), %s]",
+}
+
+var pairDocs = []string{
+	`{"a":1,"b":2,"n":1.5,"s":"abc","num_s":"12","arr":[{"a":1},{"a":2},{"a":1}],"nums":[3,1,2],"strs":["b","a","c"],"mix":[{"a":1},null,1,"s",[{"a":2}],{"b":3},true,{"a":null}],"obj":{"k":1,"j":[1]},"one":{"k":{"k":5}},"empty":[],"nul":null,"nest":[[1,[2]],[],[[3]],4]}`,
+	`{"a":{"b":{"c":7}},"b":null,"n":-2,"s":"","num_s":"1e2","arr":[],"nums":[],"strs":[],"mix":[],"obj":{},"one":{"k":null},"empty":[],"nul":null,"nest":[]}`,
+	`{"a":[1,2],"b":"x","n":0,"s":"[1, 2]","num_s":" 1","arr":[{"a":"x"},{"a":"y"}],"nums":[1],"strs":["é","z"],"mix":[null,null],"obj":{"k":[{"a":1}]},"one":{"a":1},"empty":[],"nul":null,"nest":[[],[[]]]}`,
+	`null`, `[{"a":1,"b":[1,2]},{"a":null},3,null,"s",[4]]`, `"text"`, `5`, `{"a":false,"b":true,"n":2,"s":"a","num_s":"nan","arr":[{"a":false},{"a":0},{"a":""},{"a":[]}],"nums":[2,2,1],"strs":["a","a"],"mix":[0,"",[],{},false],"obj":{"a":{"a":{"a":1}}},"one":{"k":[]},"empty":[],"nul":null,"nest":[[null],[null,[null]]]}`,
+}
+
+func pairCount() int { return len(pairInner) * len(pairOuter) * len(pairDocs) }
+
+// streamPairs enumerates the product in an order that visits every (outer, inner) pair on the first document before any
+// second document, so that a prefix of the stream already holds all the pairs.
+func streamPairs(seed uint64, idx int) caseT {
+	idx = (idx + int(seed%7919)*104729) % pairCount()
+	np := len(pairInner) * len(pairOuter)
+	d := (idx / np) % len(pairDocs)
+	k := idx % np
+	in := pairInner[k%len(pairInner)]
+	out := pairOuter[(k/len(pairInner))%len(pairOuter)]
+	e := strings.Replace(out, "%s", in, -1)
+	op := "S"
+	if strings.HasPrefix(out, "keys(") || strings.HasPrefix(out, "values(") {
+		op = "SU" // the members of a multi-member object come in no particular order: compared as a multiset
+	}
+	return caseT{lines: []string{op + " " + hexField(e) + " " + canonOf(mustJSON(pairDocs[d]))}}
+}
+
+func init() { streamTable["pairs"] = streamPairs }
